@@ -67,11 +67,13 @@ struct in_jr {
 	unsigned char fill[16];		/* native replay: block content pattern */
 	unsigned char tag[16];
 	unsigned char choice[8];
-	unsigned int nr_revokes;
+	int nr_revokes;
+	unsigned long long fail_at;	/* index of the stubbed callee call that reports an error */
+	int fail_err;
 };
 struct in_jr IN;
 #include "verif_in.h"
 
 unsigned long long verif_k;
-unsigned long long verif_g0, verif_g1, verif_g2, verif_g3;
+unsigned long long verif_g0, verif_g1, verif_g2, verif_g3, verif_g4, verif_g5, verif_g6, verif_g7;	/* generic ghost registers: meaning fixed per unit */
 
